@@ -29,6 +29,7 @@ fn gate(p: &Partial, t: Tier) -> Result<(), String> {
     super::need(p, "tcp:d<=1", 500)?;
     super::need(p, "junk:non-utf8", 1000)?;
     super::need(p, "recording-excerpt", 100)?;
+    super::need(p, "sweep-cadence", 100)?;
     Ok(())
 }
 
@@ -223,6 +224,32 @@ fn run(ctx: &mut Ctx) {
                 for ins in positions(len, 1, &all) {
                     check_tcp(ctx, &sname, &stream, &clean, &ins, &junk);
                 }
+            }
+        }
+    }
+    // sweep cadence: with -d 0 every sweep empties the table, so the final table shows exactly when the
+    // sweeps happened; junk lines must not shift them (streams of 26 frames of 6 aircraft, 1..3 junk
+    // lines at every position)
+    {
+        let cfg0 = Cfg::new(&["-d", "0"]);
+        let mut long: Vec<Vec<u8>> = vec![];
+        for k in 0..26u32 {
+            let a = 0x400100 + (k % 6);
+            long.push(if k % 2 == 0 { frames::df11(5, a, 0) } else { frames::df4(a, frames::ac13_for_alt(1000 * (1 + k as i32))) }.hex().into_bytes());
+        }
+        let (o, clean) = run_clean(&cfg0, &long);
+        if !o.is_ok() {
+            ctx.machinery(format!("cadence stream failed: {}", o.label()));
+        }
+        for pos in 0..=long.len() {
+            job += 1;
+            if !ctx.mine(job) {
+                continue;
+            }
+            for (j, reps) in [(6usize, 1usize), (6, 2), (6, 3), (0, 1), (8, 2), (15, 1)] {
+                let ins: Vec<(usize, usize)> = (0..reps).map(|_| (pos, j)).collect();
+                ctx.count("sweep-cadence");
+                check_file(ctx, &cfg0, "cadence26", &long, &clean, &ins, &junk);
             }
         }
     }
